@@ -483,7 +483,7 @@ func TestC17Huge(t *testing.T) {
 	key := uint32(0xa1b2c3d4)
 	kb := keyBytes(key)
 	for _, im := range maskImpls() {
-		clear(mem) // zeros: the masked buffer is the key pattern itself
+		clear(mem)          // zeros: the masked buffer is the key pattern itself
 		buf := mem[1 : 1+n] // odd start address
 		got := im.f(buf, key)
 		_, wantKey := c17Oracle(make([]byte, n%4), key) // the rotation depends on the length mod 4 only
